@@ -25,10 +25,10 @@ var rules = []*Rule{
 	{ID: "R8", Title: "KEY-EQUALITY: a hash hit is only a candidate", Props: []string{"C09", "C13", "C14", "C11"}, Run: func(p *Prog) []Ob {
 		return append(append(ruleR8(p), p.collectLoopAscends()...), p.ownBackingArray()...)
 	}},
-	{ID: "R10", Title: "DECODER-VALIDATION: nothing is returned before it is checked", Props: []string{"C14", "C07", "C05", "C11", "C09", "C01", "C17", "C13", "C02"}, Run: func(p *Prog) []Ob {
+	{ID: "R10", Title: "DECODER-VALIDATION: nothing is returned before it is checked", Props: []string{"C14", "C07", "C05", "C11", "C09", "C01", "C17", "C13", "C02", "C06"}, Run: func(p *Prog) []Ob {
 		return append(append(append(append(ruleR10(p), p.wholeItems()...), p.eofOrigin()...), p.freshMessage()...), p.wholeHeaderAndMappedAccess()...)
 	}},
-	{ID: "R11", Title: "COPY-LOOP: every record read is accounted for", Props: []string{"C01", "C02", "C03", "C05", "C07", "C08", "C11", "C12", "C17", "C10"}, Run: func(p *Prog) []Ob {
+	{ID: "R11", Title: "COPY-LOOP: every record read is accounted for", Props: []string{"C01", "C02", "C03", "C05", "C07", "C08", "C11", "C12", "C17", "C10", "C06"}, Run: func(p *Prog) []Ob {
 		return append(append(append(ruleR11(p), p.deletedSizeVersion()...), p.publishLoopObligations()...), append(append(append(append(p.indexTimeSeed(), p.recoverLooksAtTheIndex()...), p.wholeIndexCompare()...), p.scanBeforeVerdict()...), append(append(p.checkAndRecoverVerdicts(), p.publishedPositionIsWritten()...), p.recoverWritesKnownVersion()...)...)...)
 	}},
 	{ID: "R12", Title: "EFFECT-CONFINEMENT: who can change a log file", Props: []string{"C19", "C20", "C07", "C11", "C13", "C08"}, Run: func(p *Prog) []Ob { return append(ruleR12(p), p.indexConfinement()...) }},
@@ -47,7 +47,7 @@ var rules = []*Rule{
 	}},
 	{ID: "R22", Title: "SEGMENT-TYPESTATE: no use of a segment after its files were removed", Props: []string{"C12", "C01", "C03", "C04", "C10"}, Run: ruleR22},
 	{ID: "R23", Title: "MULTI-DRIVER ACCOUNTING: a round's deletions are reported", Props: []string{"C12"}, Run: ruleR23},
-	{ID: "R17", Title: "OFFSET-ASSIGNMENT", Props: []string{"C02", "C01", "C03"}, Run: func(p *Prog) []Ob {
+	{ID: "R17", Title: "OFFSET-ASSIGNMENT", Props: []string{"C02", "C01", "C03", "C19"}, Run: func(p *Prog) []Ob {
 		return append(append(append(ruleR17(p), p.tailSurvivedObligations()...), p.rolloverFromNonEmpty()...), append(p.nextOffsetFromTheHead(), p.nextOffsetIsNotACount()...)...)
 	}},
 	{ID: "R5", Title: "INUSE: the unload refcount protocol", Props: []string{"C08", "C19", "C04", "C03"}, Run: ruleR5},
@@ -63,7 +63,7 @@ var rules = []*Rule{
 	{ID: "R25", Title: "BACKUP-COMPLETENESS", Props: []string{"C20", "C11", "C19"}, Run: func(p *Prog) []Ob { return append(ruleR25(p), p.staleTargetIndexRemoved()...) }},
 	{ID: "R26", Title: "HEAD-INDEX-LIVENESS", Props: []string{"C03", "C08", "C19"}, Run: func(p *Prog) []Ob { return append(ruleR26(p), p.prebuiltIndexStays()...) }},
 	{ID: "R27", Title: "KEPT-READER-NOT-HEAD", Props: []string{"C03", "C12"}, Run: func(p *Prog) []Ob { return append(ruleR27(p), p.rewriteDropsOldIndex()...) }},
-	{ID: "R28", Title: "GET-EXACT and CONSUME-BOUND", Props: []string{"C04", "C03"}, Run: func(p *Prog) []Ob {
+	{ID: "R28", Title: "GET-EXACT and CONSUME-BOUND", Props: []string{"C04", "C03", "C14"}, Run: func(p *Prog) []Ob {
 		return append(append(append(ruleR28(p), p.consumeBound()...), p.newestByEquality()...), append(p.getPicksCoveringSegment(), p.batchEndsAtTheEnd()...)...)
 	}},
 	{ID: "R29", Title: "ITEM-DERIVATION", Props: []string{"C10", "C11"}, Run: ruleR29},
